@@ -17,6 +17,17 @@ CHECKS = {
         note='numpy.float16 and struct are the trusted references; LED byte layout taken from the firmware reader.',
         technique='runtime oracle on return values (reference model + icontract postcondition), exhaustive fp16 sweep',
         engine='codec-oracles', design='DESIGN.md §3 C13'),
+    'C03': dict(
+        level='exploration',
+        text=('The real connection sequence (Crazyflie.open_link over the sim:// driver, all library threads real, run '
+              'by the deterministic scheduler) downloads generated device tables: sizes 0..400 across the 8-bit '
+              'boundary, both protocol generations, ISO-8859-1 names at the packet limit, under six reply policies '
+              '(in-order, duplicates, delayed duplicates, delays, lossy link with retry timers, stale replies and '
+              'stale fetchers of an aborted earlier session). A monitor on `connected` snapshots both tables and '
+              'probes all four lookup paths; the oracle is the simulated device. Sampled, not exhaustive.'),
+        note='Trusts the simulated device model (written from the firmware TOC protocol) and the scheduler shims.',
+        technique='trace monitor at the connected callback vs. device ground truth, under a deterministic thread scheduler',
+        engine='detsched+simcf', design='DESIGN.md §3 C03'),
 }
 
 PENDING_REASON = ('check not built yet in this work session (design in DESIGN.md §3); nothing is claimed for it '
@@ -62,6 +73,11 @@ def manifest():
         'engines': [
             {'name': 'codec-oracles', 'path': 'vf/checks', 'serves_properties': ['C13'],
              'kind_free_text': 'independent reference computations judged against return values of the real functions'},
+            {'name': 'detsched+simcf', 'path': 'vf/detsched.py, vf/simcf.py, vf/simlink.py',
+             'serves_properties': [p for p in ('C02', 'C03', 'C04', 'C05', 'C06', 'C10', 'C11') if p in CHECKS],
+             'kind_free_text': ('deterministic baton-passing scheduler with a virtual clock over the library\'s real '
+                                'threads + simulated Crazyflie behind a sim:// CRTP driver; monitors at callbacks, '
+                                'wire and device state')},
         ],
         'checks': checks,
         'not_applicable': na,
